@@ -963,7 +963,16 @@ def _format_operand_ok(F, fn, e, depth=0):
                         # `match style attr { Ok(Some(style)) => formats.get(id), _ => Some(&CellFormat::Other) }`
                         rs = [_format_operand_ok(F, fn, _arm_value(a["body"]), depth + 1) for a in init["arms"]]
                         goods = [r for r in rs if r is None]
-                        consts = [a for a in init["arms"] if "Other" in variants_built(a["body"], "CellFormat")]
+                        def _vb(e_):
+                            # variants built directly, or through a named constant (`const UNSTYLED: CellFormat = CellFormat::Other`)
+                            out_ = list(variants_built(e_, "CellFormat"))
+                            for p_ in walk_k(e_, "Path"):
+                                if p_.get("res", {}).get("dk") == "Const":
+                                    for c_ in F.consts:
+                                        if norm(c_["def"]) == path_def(p_) and c_.get("body") is not None:
+                                            out_ += variants_built(c_["body"], "CellFormat")
+                            return out_
+                        consts = [a for a in init["arms"] if "Other" in _vb(a["body"])]
                         if goods and len(goods) + len(consts) >= len(init["arms"]):
                             return None
                         return "a format that is not looked up from the style index on any path"
@@ -1036,6 +1045,14 @@ def r_pwd(ctx, rep):
                 for arm in a["arms"]:
                     if arm.get("guard") is not None and any(x is n for x in walk(arm["body"])):
                         conds.append(arm["guard"])
+        # a test on a boolean local (`let encrypted = Cfb::new(..).map_or(false, |cfb| cfb.has_directory(..)); if encrypted {`)
+        # stands for the local's initialiser
+        from .kit import cond_exprs
+        conds2 = []
+        for c in conds:
+            ex = cond_exprs(sn.body, c)
+            conds2 += ex[1:] if (len(ex) > 1 and path_local(unwrap(c))) else [c]
+        conds = conds2
         ok_dir = any(any(m["name"] == "has_directory" and m["args"] and lit_value(m["args"][0]) == "EncryptedPackage" for m in walk_k(c, "MethodCall")) for c in conds)
         other = [c for c in conds if not any(m["name"] == "has_directory" for m in walk_k(c, "MethodCall")) and not any((callee(x) or "").endswith("Cfb::new") for x in walk_k(c, "Call"))]
         negated = any(u["op"] == "!" and any(m["name"] == "has_directory" for m in walk_k(u, "MethodCall")) for c in conds for u in walk_k(c, "Unary"))
